@@ -50,7 +50,9 @@ namespace awkward {
 
   int64_t
   TupleBuilder::length() const {
-    return length_;
+    // -1 marks a builder that has not begun its first tuple (new or cleared):
+    // it holds nothing
+    return (length_ == -1 ? 0 : length_);
   }
 
   void
